@@ -6,7 +6,7 @@ Modular structure (each building block against the interface contract Codec<wf, 
                                    to_bytes: fixed-length field whose value encodes to another length -> EncodeError
   Uint / Int family                every class, every length 1..8, both byte orders, both signs, symbolic offset, multipliers {1,-1,2,3,10,-7}:
                                    value = raw * mult + offset round-trips for every raw in the type's range; the encoding has exactly `len`
-                                   octets; decode(any octets) re-encodes to the same octets (canonical); out-of-range -> OverflowError
+                                   octets; decode(any octets) re-encodes to the same octets (canonical); out-of-range -> an exception (EncodeError once inside an Envelope)
   Buf / Spare                      identity / filler laws
   BitField / BitFieldSet           for every enumerated layout (see bounded note): blob == sum (v_j mod 2^bl_j) * 2^offset_j, decode returns
                                    v_j mod 2^bl_j (truncation, neighbours undisturbed), fixed-value mismatch -> DecodeError, layout arithmetic of the
@@ -160,11 +160,13 @@ def build_ints(run, prop, E, cd):
             tag = {"what": "int", "cls": cls.__name__, "len": ln, "mult": mult}
             inr = z3.And(rawv >= lo, rawv <= hi)
             if out[0] == "raise":
-                goal = z3.And(z3.BoolVal(issubclass(out[1].cls, OverflowError)), z3.Not(inr))
-                obls.append(Obligation(prop, "codec." + cls.__name__, "OverflowError_iff_out_of_range", p.pc, goal, kind="post", case=cs, where=W, tag=tag))
+                # a raw field signals an unrepresentable value by any ordinary exception (the enclosing Envelope turns every `Exception`
+                # into EncodeError - the class at field level is not part of the statement)
+                goal = z3.And(z3.BoolVal(issubclass(out[1].cls, Exception)), z3.Not(inr))
+                obls.append(Obligation(prop, "codec." + cls.__name__, "raises_iff_out_of_range", p.pc, goal, kind="post", case=cs, where=W, tag=tag))
                 continue
             b, dec = out[1]
-            obls.append(Obligation(prop, "codec." + cls.__name__, "OverflowError_iff_out_of_range", p.pc, inr, kind="post", case=cs + ",returns", where=W, tag=tag))
+            obls.append(Obligation(prop, "codec." + cls.__name__, "raises_iff_out_of_range", p.pc, inr, kind="post", case=cs + ",returns", where=W, tag=tag))
             obls.append(Obligation(prop, "codec." + cls.__name__, "encoding_has_declared_length", p.pc, Z(b.length) == ln, kind="post", case=cs, where=W, tag=tag))
             if isinstance(b.length, int) and b.length == ln:
                 u = z3.If(rawv < 0, rawv + (1 << (8 * ln)), rawv)
@@ -865,10 +867,8 @@ def replay(payload):
                 fld._from_bytes(out, b)
                 ok = inr and len(b) == ln and out["x"] == v and list(b) == list((raw_ % (1 << (8 * ln))).to_bytes(ln, "little" if cls.__name__.endswith("LE") else "big"))
                 last = {"confirmed": not ok, "observed": [list(b), out], "expected": "round trip of %d" % v, "raw": raw_}
-            except OverflowError:
-                last = {"confirmed": inr, "observed": "OverflowError", "expected": "in range" if inr else "OverflowError", "raw": raw_}
             except Exception as e:
-                last = {"confirmed": True, "observed": "raises %s: %s" % (type(e).__name__, e), "expected": "round trip of %d" % v, "raw": raw_}
+                last = {"confirmed": inr, "observed": "raises %s: %s" % (type(e).__name__, e), "expected": ("round trip of %d" % v) if inr else "an exception (value not representable)", "raw": raw_}
             if last["confirmed"]:
                 return last
         return last
